@@ -1,6 +1,6 @@
 #!/bin/sh
 cd /verif
-for id in C20 C11 C12 C19 C17 C13 C14 C18 C01 C02 C03 C04 C15 C16 C05 C10 C09 C08 C06 C07; do
+for id in ${IDS:-C20 C11 C12 C19 C17 C13 C14 C18 C01 C02 C03 C04 C15 C16 C05 C10 C09 C08 C06 C07}; do
   s=$(date +%s)
   VERIF_EVIDENCE_DIR=/tmp/ev-thorough ./check $id --tier thorough > /tmp/thorough-$id.log 2>&1
   rc=$?
